@@ -149,8 +149,13 @@ class ScalarHarness:
             "BosonOp": TypeObj("BosonOp"), "LadderOp": TypeObj("LadderOp"),
         })
         node = frontend.find(MODULE, "solve_scalar")
-        res = eng.call(Closure(node, Env(None, {}), "solve_scalar"),
-                       [Y, DiagNOF(RCoef(lambda occ: Hi(*occ), "h_i")), DiagNOF(RCoef(lambda occ: Hj(*occ), "h_j"))], {"diagonal": self.diagonal})
+        self.rejected = False
+        try:
+            res = eng.call(Closure(node, Env(None, {}), "solve_scalar"),
+                           [Y, DiagNOF(RCoef(lambda occ: Hi(*occ), "h_i")), DiagNOF(RCoef(lambda occ: Hj(*occ), "h_j"))], {"diagonal": self.diagonal})
+        except PyRaise as pr:
+            eng.oblige("raises-only-from-the-degeneracy-test-of-a-term", z3.BoolVal(self.rejected and pr.exc.cls == "ValueError"), detail=pr.exc.cls)
+            return
         if eng.branch(y_zero):
             return eng.oblige("zero-rhs-gives-zero", z3.BoolVal(res == 0 and not self.loop_seen))
         eng.oblige("every-term-visited", z3.BoolVal(self.loop_seen))
@@ -187,12 +192,20 @@ class ScalarHarness:
         before = len(new_terms)
         eng.assign(stmt.target, STup([STup([SI(x) for x in p]), coef]), env)
         skipped = False
+        nz0 = len(getattr(eng, "zero_facts", []))
         try:
             eng.exec_block(stmt.body, env)
         except _Cont:
             skipped = True
         except _Brk:
             raise Unsupported("break in term loop")
+        except PyRaise as pr:
+            # the only rejection: the energy denominator of this term vanishes identically (sympy's structural `== 0`, A-SY1) - the term couples levels of equal energy
+            zf = getattr(eng, "zero_facts", [])[nz0:]
+            eng.oblige("term-rejected-only-with-ValueError-for-an-identically-vanishing-energy-denominator",
+                       z3.BoolVal(pr.exc.cls == "ValueError" and len(zf) >= 1), detail=f"{pr.exc.cls}; zero tests on this path: {len(zf)}")
+            self.rejected = True
+            raise
         # lexicographic sign of the shift
         neg = z3.BoolVal(False)
         for j in reversed(range(k)):
